@@ -76,6 +76,7 @@ func (t *Tree) Get(i uint64) *big.Int {
 }
 
 func (t *Tree) Set(i uint64, v *big.Int) {
+	v = Mod(v)
 	for l := 0; l <= t.Depth; l++ {
 		delete(t.memo, [2]uint64{uint64(l), i >> uint(l)})
 	}
